@@ -129,11 +129,11 @@ def diagram2nx(diagram):
         if bubble_opening:
             for i, obj in enumerate(box.dom):
                 source = Node("dom", obj=obj, i=i, depth=depth)
-                target = Node("cod", obj=obj, i=i + 1, depth=depth)
+                target = Node("cod", obj=box.cod[i + 1], i=i + 1, depth=depth)
                 graph.add_edge(source, target)
         if bubble_closing:
             for i, obj in enumerate(box.cod):
-                source = Node("dom", obj=obj, i=i + 1, depth=depth)
+                source = Node("dom", obj=box.dom[i + 1], i=i + 1, depth=depth)
                 target = Node("cod", obj=obj, i=i, depth=depth)
                 graph.add_edge(source, target)
         return scan[:off]\
